@@ -570,6 +570,7 @@ WITNESSES = [
     ("F56", 0, bop("eq", absp(st("nosuch")), fn("false"))), ("F56", 0, bop("ne", absp(st("nosuch")), fn("true"))),
     ("F56", 0, bop("lt", absp(st("nosuch")), fn("true"))), ("F56", 0, bop("gt", fn("false"), absp(C_, st("ll")))),
     ("F61", 0, fn("floor", bop("div", num(1), num(0)))), ("F61", 0, fn("floor", bop("div", num(0), num(0)))),
+    ("F64", 0, fn("substring", lit("12345"), ("neg", bop("div", num(1), num(0))))),
     ("F57", 0, ("path", ("E", U_C_L1), [st(STAR)])),
     ("F57", 0, absp(st(STAR, ds=True), st(STAR))),
     ("F57", 0, ("path", ("E", U_C_L1), [st("k", ds=True)])),
@@ -590,3 +591,18 @@ CRASH_WITNESSES = [
     ("F59", WITNESS_XML_F59, 0, absp(C_, st("d"), st(STAR, "preceding-sibling"))),
     ("F32", WITNESS_XML, 0, fn("bit-is-set", ("path", "R", []), lit("x"))),
 ]
+
+
+def ast_from_json(j):
+    """ASTs stored in corpus/xpath/*.json (JSON turns tuples into lists)"""
+    k = j[0]
+    if k == "lit": return ("lit", j[1])
+    if k == "num": return ("num", j[1], j[2])
+    if k == "fn": return ("fn", j[1], [ast_from_json(a) for a in j[2]])
+    if k == "neg": return ("neg", ast_from_json(j[1]))
+    if k == "bin": return ("bin", j[1], ast_from_json(j[2]), ast_from_json(j[3]))
+    if k == "filter": return ("filter", ast_from_json(j[1]), [ast_from_json(p) for p in j[2]])
+    if k == "path":
+        start = j[1] if isinstance(j[1], str) else ("E", ast_from_json(j[1][1]))
+        return ("path", start, [(st_[0], tuple(st_[1]), [ast_from_json(p) for p in st_[2]], bool(st_[3])) for st_ in j[2]])
+    raise ValueError(k)
